@@ -41,11 +41,13 @@ def shards(tier, seed):
         out += [{"kind": "alpha", "maxlen": 3, "first": None}]
         out += [{"kind": "alpha", "maxlen": 4, "first": a} for a in (0x22, 0x7E)]
         out += [{"kind": "random", "n": 12500, "maxlen": 120, "part": p} for p in range(4)]
+        out += [{"kind": "table", "_pyflags": ["-O"]}, {"kind": "random", "n": 4000, "maxlen": 120, "part": 77, "_pyflags": ["-OO"]}]
     else:
         out += [{"kind": "alpha", "maxlen": 3, "first": None}]
         out += [{"kind": "alpha5", "first": a, "second": b} for a in ALPHA for b in ALPHA[::2]]
         out += [{"kind": "alpha", "maxlen": 4, "first": a} for a in ALPHA]
         out += [{"kind": "random", "n": 62500, "maxlen": 300, "part": p} for p in range(32)]
+        out += [{"kind": "table", "_pyflags": ["-O"]}, {"kind": "random", "n": 40000, "maxlen": 300, "part": 77, "_pyflags": ["-OO"]}]
     return out
 
 
@@ -194,6 +196,28 @@ def run(shard, rec, tier, seed):
                     th.join()
         finally:
             sys.setswitchinterval(old_iv)
+        # once more with line-level yield injection inside the codec (fewer, shorter buffers)
+        from vf.mon import threads as thr
+
+        def work2(tid, rnd):
+            r = random.Random("C08-thr-inj-%d" % tid)
+            for k in range(12):
+                L = (300 if (tid + k) % 2 else 301) + 2 * r.randrange(0, 3)
+                x = bytes(r.randrange(0x20, 0x80) for _ in range(L))
+                for f, reff in ((mon.enc, ref.encode), (mon.dec, ref.decode)):
+                    b = bytearray(x)
+                    f(b)
+                    calls[0] += 1
+                    if bytes(b) != reff(x):
+                        bad.append((f.__name__, tid, L))
+                        return []
+            return []
+        import os
+
+        _f, errs = thr.hammer(work2, 4, 1, inject=os.path.join(stage.REPO, "src", "eolib", "data"), first_round=100)
+        for e in errs[:2]:
+            rec.violation("raises", "a worker thread died: " + e, {"threads": 4})
+        rec.count("line-events-with-yield-injection", getattr(thr.hammer, "lines_with_injection", 0))
         rec.count("calls-from-concurrent-threads", calls[0])
         rec.case(("threads", shard["rounds"]), n=calls[0])
         cnt = calls[0] // 2
